@@ -34,17 +34,17 @@ TOL = Fraction(1, 10**9)
 
 
 def anchors():
-    from simfile.timing import engine as E
+    from ..core import pick
 
-    return {
-        "TimingEngine._coalesce_warps": E.TimingEngine._coalesce_warps,
-        "TimingEngine._retime_events": E.TimingEngine._retime_events,
-        "TimingEngine.time_at": E.TimingEngine.time_at,
-        "TimingEngine.bpm_at": E.TimingEngine.bpm_at,
-        "TimingState.time_until": E.TimingState.time_until,
-        "TimingStateMachine.advance": E.TimingStateMachine.advance,
-        "TaggedEvent.__lt__": E.TaggedEvent.__lt__,
-    }
+    return pick(
+        "simfile.timing.engine:TimingEngine._coalesce_warps",
+        "simfile.timing.engine:TimingEngine._retime_events",
+        "simfile.timing.engine:TimingEngine.time_at",
+        "simfile.timing.engine:TimingEngine.bpm_at",
+        "simfile.timing.engine:TimingState.time_until",
+        "simfile.timing.engine:TimingStateMachine.advance",
+        "simfile.timing.engine:TaggedEvent.__lt__",
+    )
 
 
 def cases(ctx, random_n=(600, 16 * 6000), thorough_events=5):
